@@ -199,6 +199,8 @@ PASSES = [
     [],                                                                       # nothing moves
     [['A', ['move', 1.0]], ['A', ['move', 0.25]]],                            # converges at pass 2 (tol .5) / 3 (default)
     [['A', ['move', 1.0]], ['A', ['move', 1.0]], ['A', ['move', 1.0]], ['A', ['move', 1.0]]],   # keeps moving
+    [['A', ['move', 1.0]], ['A', ['move', 2.0 ** -30]]],      # a second move just above the default tolerance (2 / 3 passes)
+    [['A', ['move', 1.0]], ['A', ['move', 2.0 ** -34]]],      # ... just below it (converges at pass 2 by default)
 ]
 
 
@@ -238,7 +240,7 @@ def gen_pairs(max_len):
                     for e in cands:
                         i += 1
                         yield {'span': desc, 'start': s, 'end': e, 'lags': lags, 'leads': leads, 'nvars': 1, 'presolved': i % 2 == 0,
-                               'script': script_for(n, [1, 0, 2][: 1 + i % 3],
+                               'script': script_for(n, [[1], [1, 0], [1, 0, 2], [3], [3, 0], [4, 2, 3]][i % 6],
                                                     [i % max(n, 1), 1, ['raise', 'KeyError']] if i % 5 == 0 and n else None),
                                'opts': [{'max_iter': 3, 'failures': 'ignore', 'tol': 0.5},
                                         {'max_iter': 5, 'failures': 'ignore'},
@@ -280,7 +282,7 @@ def strategy():
             del opts['min_iter']
         return {'span': desc, 'start': draw(lab), 'end': draw(lab), 'lags': lags, 'leads': leads, 'nvars': 1,
                 'presolved': draw(st.booleans()),
-                'script': script_for(n, draw(st.lists(st.integers(0, 2), min_size=1, max_size=3)), fault),
+                'script': script_for(n, draw(st.lists(st.integers(0, 4), min_size=1, max_size=3)), fault),
                 'opts': opts, 'rep': draw(tapes())}
     return cases()
 
